@@ -134,9 +134,19 @@ Example C13_views_alias_nonvacuous :
                 read (write st v1 [true]) v2 = [true; true; false; true; false; true].
 Proof. eexists; eexists. repeat split; vm_compute; reflexivity. Qed.
 
-(** the compile-time address (_ref_spec) recorded for a view equals its storage cells - FALSE for the faithful model:
-    __iter__ drops the base offset of a nested slice (the indexed element is addressed correctly). *)
-Theorem C13_iter_refspec_refuted :
-  exists ch v, derive (root_view 0 (QSig, None) FBV 8) ch = Some v /\ vcells v = [3] /\ resolve 8 (vspec v) = (1, 1)%Z.
-Proof. exact iter_refspec_refuted. Qed.
-Print Assumptions C13_iter_refspec_refuted.
+(** the compile-time address (_ref_spec) recorded for a view denotes exactly its storage cells - for EVERY chain of
+    casts, slices, indices and iteration (true since fix 1fd038a: __iter__ keeps the offsets of enclosing slices;
+    and 3cbec06: slices outside the vector are rejected) *)
+Theorem C13_refspec : forall id q f w ch v,
+  derive (root_view id q f w) ch = Some v ->
+  (0 <= fst (resolve w (vspec v)))%Z /\
+  vcells v = seq (Z.to_nat (fst (resolve w (vspec v))))
+                 (Z.to_nat (snd (resolve w (vspec v)) - fst (resolve w (vspec v)) + 1)).
+Proof. exact refspec_cells. Qed.
+Print Assumptions C13_refspec.
+
+Example C13_refspec_nonvacuous :
+  exists v v', derive (root_view 0 (QSig, None) FBV 8) [SSlice 7 2; SSlice 3 1; SIter 0] = Some v /\
+               derive (root_view 0 (QSig, None) FBV 8) [SSlice 7 2; SSlice 3 1; SIndex 0] = Some v' /\
+               vcells v = [3] /\ vcells v' = [3] /\ resolve 8 (vspec v) = (3, 3)%Z /\ resolve 8 (vspec v') = (3, 3)%Z.
+Proof. exact iter_equals_index. Qed.
